@@ -644,6 +644,98 @@ fn read_fault_probe(cx: &Ctx, r: &mut Prng, out: &mut Out, asyncp: bool) {
     }
 }
 
+/// READ / WRITE served through the default methods of the zero-copy traits
+/// (`ZeroCopyWriter::write_all_from`, `ZeroCopyReader::read_exact_to`) against a file that answers
+/// short: the reply payload must be the file's bytes [offset, offset+size) and the file must
+/// receive the request's payload at consecutive offsets.  Model-free.
+fn zero_copy_probe(cx: &Ctx, r: &mut Prng, out: &mut Out) {
+    use fbrh::xscript::pat_bytes;
+    let fusedev = r.chance(1, 2);
+    let write = r.chance(1, 2);
+    let n = r.range(2, 300) as usize;
+    let off = *r.pick(&[0u64, 1, 4095, 1u64 << 32, 77777]);
+    let seed = r.below(1000);
+    let chunks: Vec<usize> = (0..r.range(1, 4)).map(|_| r.range(1, n as u64 - 1) as usize).collect();
+    let unique = r.next() | 1;
+    let data: Vec<u8> = (0..n).map(|i| (i * 13 + 5) as u8).collect();
+    let (op, total) = if write { (16u32, 80 + n) } else { (15u32, 80) };
+    let mut req = srvgen::header(total as u32, op, unique, 1, 0, 0, 1, 0);
+    req.extend_from_slice(&7u64.to_le_bytes());
+    req.extend_from_slice(&off.to_le_bytes());
+    req.extend_from_slice(&(n as u32).to_le_bytes());
+    req.extend_from_slice(&[0u8; 20]);
+    if write {
+        req.extend_from_slice(&data);
+    }
+    let cap = if write { 64 } else { 16 + n as u64 + 8 };
+    let zc = chunks.iter().map(|c| c.to_string()).collect::<Vec<_>>().join(",");
+    let line = if fusedev {
+        format!("t=fusedev cap={} op={} vu=0 remap=ok req={} ans=zc seed={} zc={}", cap, op, hex(&req), seed, zc)
+    } else {
+        let segs = split_lens(req.len(), r).iter().map(|x| x.to_string()).collect::<Vec<_>>().join(",");
+        format!("t=virtio cap={} op={} vu=0 remap=ok seg={} wseg={} lay={} req={} ans=zc seed={} zc={}", cap, op, segs, cap, r.below(4), hex(&req), seed, zc)
+    };
+    let kv = parse_kv(&line);
+    fbrh::scriptfs::TAP.with(|t| t.borrow_mut().clear());
+    let run = run_case(cx, &kv);
+    let tap: Vec<String> = fbrh::scriptfs::TAP.with(|t| t.borrow().clone());
+    out.stat(if write { "probe:zero-copy:read_exact_to" } else { "probe:zero-copy:write_all_from" });
+    let reply = client_reply(&run, fusedev);
+    let mut bad: Option<String> = None;
+    match &reply {
+        None => bad = Some("no reply".into()),
+        Some(rp) if rp.len() < 16 => bad = Some(format!("reply of {} bytes", rp.len())),
+        Some(rp) => {
+            let (len, err) = (le32(rp, 0) as usize, le32(rp, 4) as i32);
+            if write {
+                let want_offs: Vec<String> = {
+                    let mut v = vec![];
+                    let mut done = 0usize;
+                    let mut k = 0;
+                    while done < n {
+                        v.push((off + done as u64).to_string());
+                        done += std::cmp::min(chunks.get(k).copied().unwrap_or(n), n - done);
+                        k += 1;
+                    }
+                    v
+                };
+                match tap.iter().find_map(|t| t.strip_prefix("zc-write:")) {
+                    None => bad = Some("the file system's write was not reached".into()),
+                    Some(t) => {
+                        let (got, offs) = t.split_once(':').unwrap_or((t, ""));
+                        if got != hex(&data) {
+                            bad = Some(format!("the file received {} where the request carried {}", got, hex(&data)));
+                        } else if offs != want_offs.join(",") {
+                            bad = Some(format!("the file was written at offsets [{}], expected [{}]", offs, want_offs.join(",")));
+                        } else if err != 0 || len != 24 || rp.len() < 24 || le32(rp, 16) as usize != n {
+                            bad = Some(format!("reply len={} error={} for a complete write of {}", len, err, n));
+                        }
+                    }
+                }
+            } else {
+                let want = pat_bytes(seed, off, n);
+                if err != 0 || len != 16 + n || rp.len() != 16 + n {
+                    bad = Some(format!("reply len={} error={} record {} bytes for a read of {}", len, err, rp.len(), n));
+                } else if rp[16..] != want[..] {
+                    let k = rp[16..].iter().zip(want.iter()).position(|(a, b)| a != b).unwrap_or(0);
+                    bad = Some(format!("reply payload differs from the file's bytes [{}, {}) from byte {} on (short answers {:?})", off, off + n as u64, k, chunks));
+                }
+            }
+        }
+    }
+    if run.panicked {
+        bad = Some("panic".into());
+    }
+    if let Some(what) = bad {
+        for p in ["C03", "C02", "C04"] {
+            let v = serde_json::json!({"prop": p, "key": format!("{}:zero-copy:{}", p, if write { "read_exact_to" } else { "write_all_from" }), "case": line, "what": what});
+            use std::io::Write;
+            writeln!(out.oracle, "{}", v).unwrap();
+            out.n_oracle += 1;
+        }
+    }
+}
+
 fn run_case_logged(cx: &Ctx, kv: &Kv) -> Run {
     // ScriptFs is owned by the server; its log is extracted through a thread-local tap
     fbrh::scriptfs::TAP.with(|t| t.borrow_mut().clear());
@@ -932,6 +1024,9 @@ fn main() {
         out.case(&line, &o);
         if prop != "C12" && i % 40 == 7 {
             read_fault_probe(&cx, &mut r, &mut out, is_async);
+        }
+        if prop != "C12" && !is_async && i % 40 == 23 {
+            zero_copy_probe(&cx, &mut r, &mut out);
         }
     }
     out.finish();
